@@ -218,12 +218,18 @@ func getOctoSQLValue(t octosql.Type, value *fastjson.Value) (out octosql.Value, 
 			values := make([]octosql.Value, len(t.Struct.Fields))
 
 			outOk := true
+			present := 0
 			for i, field := range t.Struct.Fields {
-				curValue, curOk := getOctoSQLValue(field.Type, obj.Get(field.Name))
+				fieldValue := obj.Get(field.Name)
+				if fieldValue != nil {
+					present++
+				}
+				curValue, curOk := getOctoSQLValue(field.Type, fieldValue)
 				values[i] = curValue
 				outOk = outOk && curOk
 			}
-			return octosql.NewStruct(values), outOk
+			// A key the inferred type doesn't know would be dropped silently.
+			return octosql.NewStruct(values), outOk && present == obj.Len()
 		}
 	case octosql.TypeIDUnion:
 		for _, alternative := range t.Union.Alternatives {
